@@ -9,6 +9,7 @@ import PV.Model.Summary
 import PV.Model.PySem
 import PV.Model.StructDead
 import PV.Model.Decisions
+import PV.Model.Registry
 /-!
 Line-protocol driver: runs the executable models on the cases the harness also ran on the
 implementation.  Core-only imports (links as a native executable).
@@ -265,6 +266,29 @@ def runMccabe (t : Array String) : String :=
   let (body, _) := parseList t 4
   toString (PV.Dec.mccabe dead body)
 
+mutual
+  partial def parseDef (t : Array String) (pos : Nat) : PV.Reg.Def × Nat :=
+    let k := t[pos]!
+    let name := t[pos+1]!
+    let s := (tokI t[pos+2]!).toNat
+    let e := (tokI t[pos+3]!).toNat
+    let (kids, p) := parseDefs t (pos + 4)
+    (if k == "fn" then .fn name s e kids else .cls name s e kids, p)
+  partial def parseDefs (t : Array String) (pos : Nat) : List PV.Reg.Def × Nat :=
+    let n := (tokI t[pos+1]!).toNat
+    let rec go (k : Nat) (p : Nat) (acc : List PV.Reg.Def) : List PV.Reg.Def × Nat :=
+      match k with
+      | 0 => (acc.reverse, p)
+      | k' + 1 => let (x, p') := parseDef t p; go k' p' (x :: acc)
+    go n (pos + 2) []
+end
+
+/-- `reg [ n (fn|cls name s e [ n …)…` → registry rows `name:s:e;…` in registration order -/
+def runReg (t : Array String) : String :=
+  if t.size < 2 then "bad-op" else
+  let (ds, _) := parseDefs t 0
+  joinWith ";" ((PV.Reg.registry (PV.Reg.allFuncs [] ds)).map fun r => s!"{r.name}:{r.s}:{r.e}")
+
 def step (line : String) : String :=
   let parts := (line.splitOn " ").filter (· ≠ "")
   match parts with
@@ -282,6 +306,7 @@ def step (line : String) : String :=
     | "live" => runLive t
     | "sdead" => runSDead t
     | "mccabe" => runMccabe t
+    | "reg" => runReg t
     | _ => "bad-op"
 
 partial def loop (h : IO.FS.Stream) (out : IO.FS.Stream) : IO Unit := do
